@@ -44,6 +44,8 @@ def worlds(tier, rng, real, classes, attrs=False, nmax=6):
         for k in range(rng.randint(1, 3)):
             ms = [i for i in range(nv) if rng.random() < 0.6]
             rng.shuffle(ms)
+            if ms and rng.random() < 0.3:
+                ms = ms + [ms[0]]            # the constructor argument names a vertex twice
             lines.append("universe" + ((" m=" + ",".join("V%d" % i for i in ms)) if ms else ""))
             unis.append(nv + 2 + k)
         if rng.random() < 0.3:
@@ -118,7 +120,13 @@ class C14(Check):
     def batches(self, tier, rng, real):
         for lines, unis in worlds(tier, rng, real, ["D", "U", "DD", "UU"] + (["X"] if rng.random() < 0.15 else []), attrs=True, nmax=4):
             qs = ["puml V%d %d" % (u, o) for u in unis for o in (0, 1, 2, 3, 4)]
-            yield run(real, lines + qs)
+            # an attribute used by the title format changes between two renders of the same vertices
+            nv = unis[0]
+            more = []
+            for _ in range(2):
+                more.append("sattr V%d 0 %d" % (rng.randrange(nv), rng.choice([0, 1, 2, 3])))
+                more += ["puml V%d %d" % (u, o) for u in unis[:2] for o in (2, 4)]
+            yield run(real, lines + qs + more)
 
     def search(self, tier, rng, real, v):
         yield from self.batches("quick", rng, real)
